@@ -307,7 +307,12 @@ def iteritems(val: t.Any) -> t.Iterable[tuple[t.Any, t.Any]]:
 
 def _is_iterable_of_pairs(val: t.Any) -> tuple[bool, t.Any]:
     cls = val.__class__
-    if not inspection.isiterabletype(cls) or inspection.ismappingtype(cls):
+    if (
+        not inspection.isiterabletype(cls)
+        or inspection.ismappingtype(cls)
+        # A named tuple is iterated by field, whatever its first value looks like.
+        or inspection.isnamedtuple(cls)
+    ):
         return False, val
 
     if inspection.issequencetype(cls):
@@ -316,7 +321,8 @@ def _is_iterable_of_pairs(val: t.Any) -> tuple[bool, t.Any]:
         return is_pairs, val
 
     it = peekable(val)
-    peek = it.peek()
+    # An exhausted iterator has nothing to peek at - that isn't an error.
+    peek = it.peek(())
     is_pairs = inspection.iscollectiontype(peek.__class__) and len(peek) == 2
     return is_pairs, it
 
